@@ -56,7 +56,7 @@ func runScenario(sc scenario) ([]response, string) {
 			gates[st.Req], dones[st.Req] = co.gate, done
 			i := st.Req
 			go func() {
-				res[i] = viaRecorder(handlerForOpt(r.tcase, chunks, co))
+				res[i] = viaRecorder(handlerForOpt(r.tcase, chunks, co), r.Req)
 				close(done)
 			}()
 			select {
@@ -67,7 +67,7 @@ func runScenario(sc scenario) ([]response, string) {
 				problem = fmt.Sprintf("request %d did not reach its gate", i)
 			}
 		case "serve":
-			res[st.Req] = viaRecorder(handlerFor(r.tcase, chunks))
+			res[st.Req] = viaRecorder(handlerFor(r.tcase, chunks, nil), r.Req)
 		case "release":
 			close(gates[st.Req])
 			select {
@@ -94,7 +94,8 @@ func smallReq(r *rng.R, seed *uint64, fails bool, eh *[]op, status int) oreq {
 	if fails {
 		o.ErrKind = errKinds[r.Intn(len(errKinds))].name
 	}
-	return oreq{tcase{config{Status: status, EH: eh}, o}, 1 + r.Intn(k)}
+	// any request: the recorder keeps what the handler wrote whatever the method
+	return oreq{tcase{config{Status: status, EH: eh}, o, randRequest(r)}, 1 + r.Intn(k)}
 }
 
 var nTemplates int
@@ -194,17 +195,17 @@ func overlapping(c *core.Ctx) {
 		for ri, r := range sc.Reqs {
 			var ehr response
 			if r.Cfg.EH != nil {
-				k := fmt.Sprint(*r.Cfg.EH, r.Cfg.ctype())
+				k := fmt.Sprint(*r.Cfg.EH, r.Cfg.ctype(), r.Req.key())
 				if e, ok := ehCache[k]; ok {
 					ehr = e
 				} else {
-					ehr = viaRecorder(ehAloneHandler(*r.Cfg.EH, r.Cfg.ctype()))
+					ehr = viaRecorder(ehAloneHandler(*r.Cfg.EH, r.Cfg.ctype()), r.Req)
 					ehCache[k] = ehr
 				}
 			}
 			refs = append(refs, ref{si, ri})
 			obsv = append(obsv, obs{tc: r.tcase, via: "recorder", real: res[ri], ehr: ehr, prev: -1})
-			reqs = append(reqs, serveReq(r.tcase, r.Out.chunks(), res[ri], ehr))
+			reqs = append(reqs, serveReq(r.tcase, "recorder", r.Out.chunks(), res[ri], ehr))
 		}
 	}
 	out := c.Model(reqs)
